@@ -81,6 +81,7 @@ fn fastrand_like() -> u128 {
 }
 
 struct Cursor {
+    container: Value,
     trace: Vec<String>,
     builds: Vec<Value>,
     pos: RefCell<usize>,
@@ -149,7 +150,18 @@ fn build_prog(cur: &Cursor, tc: TestContext) {
             "b:panic" => panic!("injected panic in the build closure"),
             "b:start_container" => {
                 let mut cfg = ContainerConfig::new();
-                cfg.expose_port(8080);
+                let c = &cur.container;
+                if c.is_object() {
+                    cfg.entrypoint(c["entrypoint"].as_str().unwrap_or(""));
+                    cfg.command(c["command"].as_array().cloned().unwrap_or_default().iter().map(|x| x.as_str().unwrap_or("").to_string()).collect::<Vec<String>>());
+                    for kv in c["env"].as_array().cloned().unwrap_or_default() {
+                        cfg.env(kv[0].as_str().unwrap_or(""), kv[1].as_str().unwrap_or(""));
+                    }
+                    cfg.expose_port(c["port"].as_u64().unwrap_or(0) as u16);
+                    cfg.bind_mount(PathBuf::from(c["mount"][0].as_str().unwrap_or("")), PathBuf::from(c["mount"][1].as_str().unwrap_or("")));
+                } else {
+                    cfg.expose_port(8080);
+                }
                 tc.start_container(cfg, |cc| container_prog(cur, cc));
             }
             "b:run_shell_command" => {
@@ -175,6 +187,7 @@ fn build_prog(cur: &Cursor, tc: TestContext) {
 pub fn child(scenario: &str) -> ! {
     let req: Value = serde_json::from_str(scenario).expect("scenario json");
     let cur = Cursor {
+        container: req["container"].clone(),
         trace: req["trace"].as_array().cloned().unwrap_or_default().iter().map(|x| x.as_str().unwrap_or("").to_string()).collect(),
         builds: req["builds"].as_array().cloned().unwrap_or_default(),
         pos: RefCell::new(0),
